@@ -155,11 +155,24 @@ async fn history(role: Role, ch: &mut dyn Choose, rng: &mut Rng) -> Outc {
         } else {
             Outcome::Ok
         };
-        // a QoS 0 message cannot carry a negative ack
-        let outcome = if qos == 0 && matches!(outcome, Outcome::Nack(_)) { Outcome::Ok } else { outcome };
-        let read = match rng.below(4) {
+        // a QoS 0 message cannot carry a negative ack: on a server a handler error that the
+        // application maps to a negative acknowledgement then ends the connection like any other
+        // handler failure (at most one per history); elsewhere it is not generated
+        let outcome = if qos == 0 && matches!(outcome, Outcome::Nack(_)) {
+            if role.is_server() && !failing_planned {
+                failing_planned = true;
+                outcome
+            } else {
+                Outcome::Ok
+            }
+        } else {
+            outcome
+        };
+        let read = match rng.below(6) {
             0 => ReadMode::Chunks,
             1 if plen < 40 => ReadMode::Abandon,
+            // the handler touches the payload only after everything has arrived
+            2 => ReadMode::LateAll,
             _ => ReadMode::Eager,
         };
         let gated = ch.chance(1, 2);
@@ -187,9 +200,20 @@ async fn history(role: Role, ch: &mut dyn Choose, rng: &mut Rng) -> Outc {
         if ch.chance(1, 2) {
             c.settle().await;
         }
+        // handlers that read late: the whole packet has been written by now
+        if ch.chance(1, 2) {
+            c.settle().await;
+            for g in app.pending_gates().into_iter().filter(|g| g.0 == GateKind::PubRead) {
+                app.open_gate(g, Outcome::Ok);
+            }
+        }
         if ch.chance(1, 3) {
             release_some!();
         }
+    }
+    c.settle().await;
+    for g in app.pending_gates().into_iter().filter(|g| g.0 == GateKind::PubRead) {
+        app.open_gate(g, Outcome::Ok);
     }
     c.settle().await;
     // release everything in random order, reading the wire around each release
@@ -257,7 +281,17 @@ async fn history(role: Role, ch: &mut dyn Choose, rng: &mut Rng) -> Outc {
             }
         }
         let exit = log.iter().find_map(|(s, e)| if let Ev::PubExit { call: c2, outcome } = e { (*c2 == call).then_some((*s, outcome.clone())) } else { None });
-        let Some(id) = m.pid else { continue };
+        let Some(id) = m.pid else {
+            // QoS 0: nothing to acknowledge; a failing handler (plain error, or on a server an error
+            // mapped to a negative acknowledgement that cannot be sent) ends the connection
+            if let Some((_, Outcome::Err | Outcome::Nack(_))) = &exit {
+                o.failures_checked += 1;
+                if stop_seq == u64::MAX {
+                    o.violations.push(("failure of a QoS 0 handler did not end the connection".into(), format!("message #{} outcome {:?}; stops {stops:?}", m.idx, exit.as_ref().map(|x| &x.1))));
+                }
+            }
+            continue;
+        };
         // acks of this message on the wire
         let acks: Vec<(u64, &R)> = log.iter().filter_map(|(s, e)| if let Ev::Wire(p) = e { Some((*s, p)) } else { None }).filter(|(_, p)| matches!(p, R::PubAck { pid, .. } | R::PubRec { pid, .. } | R::PubComp { pid, .. } if *pid == id)).collect();
         let n_ack = acks.iter().filter(|(_, p)| matches!(p, R::PubAck { .. })).count();
@@ -335,7 +369,13 @@ async fn history(role: Role, ch: &mut dyn Choose, rng: &mut Rng) -> Outc {
     }
     // all traffic in these histories is valid: only a failing handler may end the connection
     let ended = !stops.is_empty() || done_seq.is_some();
-    let a_handler_failed = log.iter().any(|(_, e)| matches!(e, Ev::PubExit { outcome: Outcome::Err, .. }) || (!v5 && matches!(e, Ev::PubExit { outcome: Outcome::Nack(_), .. })));
+    // (a negative acknowledgement for a QoS 0 message cannot be sent: that handler failed, too)
+    let qos0_calls: Vec<u32> = log.iter().filter_map(|(_, e)| if let Ev::PubEnter { call, qos: 0, .. } = e { Some(*call) } else { None }).collect();
+    let a_handler_failed = log.iter().any(|(_, e)| {
+        matches!(e, Ev::PubExit { outcome: Outcome::Err, .. })
+            || (!v5 && matches!(e, Ev::PubExit { outcome: Outcome::Nack(_), .. }))
+            || matches!(e, Ev::PubExit { call, outcome: Outcome::Nack(_) } if qos0_calls.contains(call))
+    });
     if ended && !a_handler_failed {
         o.violations.push((
             "connection ended although the peer only sent valid packets and no handler failed".into(),
